@@ -13,9 +13,11 @@ import (
 	"sort"
 	"strings"
 	"sync"
+	"sync/atomic"
 	"time"
 
 	"github.com/ovn-org/libovsdb/cache"
+	"github.com/ovn-org/libovsdb/client"
 	"github.com/ovn-org/libovsdb/model"
 	"github.com/ovn-org/libovsdb/ovsdb"
 )
@@ -71,7 +73,7 @@ func resCanon(res []ovsdb.OperationResult) ([]string, bool) {
 }
 
 func runC17(r *Run) {
-	r.Rule = "2-5 clients each issuing 4-12 transactions concurrently through one real server: blind increments (mutate n += 1), read-modify-write increments guarded by wait, inserts competing for a unique index value, moves of a strongly referenced item between two holders; every transaction also inserts a marker row; 1-2 monitoring clients record the marker order from cache events; oracle: every monitor saw the same order; the committed transactions replayed sequentially in that order on a fresh database give the same results and the same final contents; counters equal the number of committed increments; exactly one insert per contested name succeeded; non-trivial = run in which at least two clients had transactions accepted; distinct by (seed, run)"
+	r.Rule = "2-5 clients each issuing 4-12 transactions (every other run 6-8 clients with 20-39) concurrently through one real server: blind increments (mutate n += 1), read-modify-write increments guarded by wait, inserts competing for a unique index value, moves of a strongly referenced item between two holders; every transaction also inserts a marker row; 1-2 monitoring clients record the marker order from cache events; 3-6 further clients establish a monitor while the transactions are being committed and must end up mirroring the database; oracle: every monitor saw the same order; the committed transactions replayed sequentially in that order on a fresh database give the same results and the same final contents; counters equal the number of committed increments; exactly one insert per contested name succeeded; non-trivial = run in which at least two clients had transactions accepted; distinct by (seed, run)"
 	n := 25
 	if r.Tier == "thorough" {
 		n = 300
@@ -143,10 +145,18 @@ func c17Run(r *Run, h int) {
 	}
 	// the concurrent clients
 	nCli := 2 + rng.Intn(4)
+	heavy := h%2 == 1 // more clients, longer plans: more commits for the late monitors to fall between
+	if heavy {
+		nCli = 6 + rng.Intn(3)
+	}
 	names := []string{"u0", "u1", "u2"}
 	plans := make([][]string, nCli) // kinds per client
 	for ci := range plans {
-		for k := 4 + rng.Intn(9); k > 0; k-- {
+		n := 4 + rng.Intn(9)
+		if heavy {
+			n = 20 + rng.Intn(20)
+		}
+		for k := n; k > 0; k-- {
 			plans[ci] = append(plans[ci], []string{"inc", "inc", "rmw", "claim", "move"}[rng.Intn(5)])
 		}
 	}
@@ -231,8 +241,55 @@ func c17Run(r *Run, h int) {
 			}
 		}()
 	}
+	// monitors that attach while the transactions are being committed: what such a monitor holds once
+	// everything is quiet must be the database, i.e. every committed transaction is either in its initial
+	// contents or notified to it
+	type lateMon struct {
+		c   client.Client
+		db  *DB
+		err error
+	}
+	nLate := 3 + rng.Intn(4)
+	var lates []*lateMon
+	var latesMu sync.Mutex
+	var lateWg sync.WaitGroup
+	var writersDone atomic.Bool
+	for li := 0; li < nLate; li++ {
+		seed := rng.Int63()
+		lateWg.Add(1)
+		go func() {
+			defer lateWg.Done()
+			lr := newLocalRand(seed)
+			<-start
+			// one monitor after the other for as long as transactions are being committed
+			for k := 0; k < 12 && !writersDone.Load(); k++ {
+				time.Sleep(time.Duration(lr.Intn(800)) * time.Microsecond)
+				lm := &lateMon{}
+				c, cdb, err := rig.newClient(rig.endpoint())
+				if err != nil || c.Connect(ctx) != nil {
+					continue
+				}
+				lm.c, lm.db = c, cdb
+				p := monPlan{Method: monitorMethods[lr.Intn(3)], Cols: map[string][]string{}}
+				for _, t := range ts.Spec.Tables {
+					p.Cols[t.Name] = nil
+				}
+				_, lm.err = c.Monitor(ctx, p.monitor())
+				latesMu.Lock()
+				lates = append(lates, lm)
+				latesMu.Unlock()
+			}
+		}()
+	}
+	defer func() {
+		for _, lm := range lates {
+			if lm.c != nil {
+				lm.c.Close()
+			}
+		}
+	}()
 	done := make(chan struct{})
-	go func() { wg.Wait(); close(done) }()
+	go func() { wg.Wait(); writersDone.Store(true); lateWg.Wait(); close(done) }()
 	close(start)
 	select {
 	case <-done:
@@ -241,6 +298,32 @@ func c17Run(r *Run, h int) {
 		return
 	}
 	cs := map[string]interface{}{"model": ts.modelJSON(), "setup": setup, "clients": results}
+	{
+		allCols := map[string][]string{}
+		for _, t := range ts.Spec.Tables {
+			allCols[t.Name] = nil
+		}
+		for li, lm := range lates {
+			if lm.err != nil || lm.c == nil {
+				continue
+			}
+			var got, want string
+			for try := 0; try < 400; try++ {
+				want = dumpCanon(projectDump(ts.Spec, rig.im.dump(), allCols))
+				got = dumpCanon(projectDump(ts.Spec, cacheDump(lm.c, lm.db, tablesOf(allCols)), allCols))
+				if got == want {
+					break
+				}
+				time.Sleep(5 * time.Millisecond)
+			}
+			if got != want {
+				r.Violation("serial", cs, diffLines(got, want), "cache = database", true,
+					fmt.Sprintf("monitor %d, established while transactions were being committed, misses committed changes: they are neither in its initial contents nor notified to it", li), "")
+				return
+			}
+			r.Count("late-monitor")
+		}
+	}
 	fatal.Range(func(k, v interface{}) bool {
 		r.Violation("serial", cs, fmt.Sprint(v), "", true, "a client panicked", "")
 		return false
